@@ -40,6 +40,10 @@ CLAIMS = {
   "For every atom count, every well-formed bond list and every enumeration order: angle keys = bonded paths i-j-k (i≠k), proper keys = bonded paths over four distinct atoms, one improper per three-neighbour centre, pairs partition into bonded / non-bonded; each once. Proved on the hand model of add_angles/add_dihedrals/add_non_bonded_pairs, which is tied to the code by exhaustive correspondence over all labelled graphs on ≤5 (quick) / ≤6 (thorough) atoms plus random graphs.",
   TB + "Modelled, not verified: the Rust loops themselves (tied by correspondence); HashSet = key-deduplicated list.",
   "Lean 4 proof (induction over list folds, all graphs/orders) + exhaustive small-scope model/code correspondence", "DESIGN.md §5 C10"),
+ "C11": ("proof",
+  "For any numeric layer, typing and geometry predicate: a successful UFF construction is stretches ++ bends ++ torsions ++ inversions ++ van der Waals with exactly one stretch per bond, one van der Waals term per non-bonded pair, one bend per angle (periodic form exactly at linear/trigonal-planar/square-planar/octahedral centres), torsions a sublist of the proper dihedrals present exactly when both central types are main-group and no flanking angle is near-linear, inversions a sublist of the impropers with one centred on an improper's centre iff its type is sp2 carbon or has a table row; RB is one stretch per bond at the radii sum with common k plus one repulsion per non-bonded pair with common c and exponent. With C10 this is 'each interaction exactly once'. The model with translated tables/formulas reproduces real term lists bit for bit.",
+  TB + "Modelled: UFF::new/RB::new structure and typing rules (corresponded on assigned types and full term lists). Known finding: elements without an own UFF type are typed with a foreign row.",
+  "Lean 4 proof (structure of the constructed term list for any numeric layer) + bit-exact term-list correspondence + multiset oracle", "DESIGN.md §5 C11"),
  "C13": ("proof",
   "For every symbol and every three printed numbers (any widths): an atom line of the written file tokenises into exactly [symbol, x, y, z]; the first line is the count; reading the written lines back yields the same atoms in order with each coordinate = parse(print(value)); the six-decimal rounding rule is within 5e-7 of the value (ties included). Proved on the hand model of XYZFile::write/read; the driver's exact implementations of {:.6} and f64::from_str reproduce the real file bytes and read-back results byte for byte.",
   TB + "Modelled: writer/reader structure (corresponded on file bytes); std formatting/parsing by contract (corresponded).",
